@@ -703,6 +703,13 @@ pub fn site_of(msg: &str) -> u64 {
     }
     // sites told apart by the source text at the panic location
     let window = src_window(msg, 2);
+    let here = src_window(msg, 0);
+    for (k, v) in [("self.commit_since_index < e.get_index()", 2101u64), ("record.last_entry, None", 2102), ("record.snapshot, None", 2103),
+        ("self.commit_since_index <= rd.snapshot", 2104), ("rd_record.number == rd.number", 2107), ("hard_state.commit == self.prev_hs.commit", 2109)] {
+        if msg.contains("raw_node.rs") && here.contains(k) {
+            return v;
+        }
+    }
     if msg.contains("left == right") || msg.contains("left: ") {
         if window.contains("self.term, m.term") {
             return 2023;
